@@ -75,7 +75,7 @@ func c10r1(w *World, rr *RuleRun) {
 		return ""
 	}
 	effects := 0
-	eachInstr(append([]*ssa.Function{h.fn}, h.fn.AnonFuncs...), func(fn *ssa.Function, ins ssa.Instruction) {
+	eachInstr(w.regionFuncs(h.fn), func(fn *ssa.Function, ins ssa.Instruction) {
 		k := kind(ins)
 		if k == "" {
 			return
@@ -109,7 +109,7 @@ func c10r1(w *World, rr *RuleRun) {
 	}
 	// invalid token: nothing but counters
 	n := 0
-	eachInstr([]*ssa.Function{h.fn}, func(fn *ssa.Function, ins ssa.Instruction) {
+	eachInstr(w.RegionOf(h.fn), func(fn *ssa.Function, ins ssa.Instruction) {
 		c := callInstrCommon(ins)
 		if c == nil {
 			return
@@ -137,15 +137,17 @@ func c10r1(w *World, rr *RuleRun) {
 	}
 	// the exits on that edge send nothing: C08.3 counts; here: returns with validToken=false exist for both methods
 	seen := map[string]bool{}
-	for _, b := range h.fn.Blocks {
-		for _, ins := range b.Instrs {
-			r, ok := ins.(*ssa.Return)
-			if !ok {
-				continue
-			}
-			for _, alt := range w.FE.StateBefore(r) {
-				if h.tokenFact(w, alt, false) {
-					seen[h.caseOf(alt)] = true
+	for _, f := range w.RegionOf(h.fn) {
+		for _, b := range f.Blocks {
+			for _, ins := range b.Instrs {
+				r, ok := ins.(*ssa.Return)
+				if !ok {
+					continue
+				}
+				for _, alt := range w.FE.StateBefore(r) {
+					if h.tokenFact(w, alt, false) {
+						seen[h.caseOf(alt)] = true
+					}
 				}
 			}
 		}
@@ -349,7 +351,7 @@ func c10r4(w *World, rr *RuleRun) {
 	retToken := w.P.Field("krpc", "Return", "Token")
 	peerStore := w.P.Field("", "ServerConfig", "PeerStore")
 	n := 0
-	for _, site := range w.CallsIn(h.fn, h.reply, true) {
+	for _, site := range w.CallsInRegion(h.fn, h.reply) {
 		rarg := callInstrCommon(site).Args[3]
 		for _, c := range h.casesAt(w, site) {
 			if c != "get" && c != "get_peers" {
